@@ -34,6 +34,8 @@ mod gen_foreign;
 mod gen_ns;
 #[path = "gen_ro.rs"]
 mod gen_ro;
+#[path = "gen_shortio.rs"]
+mod gen_shortio;
 #[path = "gen_space.rs"]
 mod gen_space;
 #[path = "gen_time.rs"]
@@ -87,9 +89,16 @@ pub fn run(scenario: &str, tier: Tier, seed: u64, exec: bool, extra: &[String], 
         "foreign" => gen_foreign::run(tier, seed, &mut rng, n_override, &mut sink),
         "big" => gen_big::run(tier, seed, &mut rng, n_override, &mut sink),
         "edge" => gen_edge::run(tier, seed, &mut rng, n_override, &mut sink),
+        "shortio" => gen_shortio::run(tier, seed, &mut rng, n_override, &mut sink),
         _ => return false,
     }
     true
+}
+
+/// Which chain of `FsOptions` builder calls a history uses (cfg `optorder=`): derived from its id, not from the random
+/// stream, so that the histories themselves stay what they were.
+pub fn optorder_of(id: &str) -> u8 {
+    (scenario_salt(id) % 8) as u8
 }
 
 fn scenario_salt(s: &str) -> u64 {
@@ -333,6 +342,9 @@ pub const FAMILY_LONG: [&str; 7] = [
 pub const CLEAN_83: [&str; 6] = ["README.TXT", "A.B", "DATA", "file.c", "DIR1", "sub"];
 pub const LOSSY: [&str; 5] = ["my file.txt", "a.b.c", ".hidden", "x+y=z.txt", "LONGFI~1.TXT"];
 pub const NON_ASCII: [&str; 4] = ["a\u{dc}n\u{ef}.txt", "x\u{df}", "a\u{65e5}\u{672c}.txt", "A\u{dc}N\u{cf}.TXT"];
+/// long names that end in dots / spaces: stored verbatim and found under exactly that spelling (both the alloc and
+/// the fixed-buffer build)
+pub const TRAILING: [&str; 6] = ["report.", "notes ", "v1.2..", "a. .", "Trailing Dot.txt.", "x  "];
 /// rejected with a user error, no panic
 pub const INVALID: [&str; 5] = ["a:b", "x*y", "q?", "a\\b", "tab\tx"];
 /// Edge names: empty, or first char multi-byte. `ShortNameGenerator::new` used to panic on these (defect F5, fixed
@@ -393,6 +405,14 @@ pub fn alphabet(rng: &mut SplitMix64) -> Vec<String> {
     let mut v: Vec<String> = Vec::new();
     let n = rng.range(6, 10) as usize;
     // one or two families in full or in part
+    if rng.chance(1, 4) {
+        // names ending in dots / spaces, with and without their trimmed twin
+        let t = *rng.pick(&TRAILING);
+        v.push(t.to_string());
+        if rng.chance(1, 2) {
+            v.push(t.trim_end_matches(['.', ' ']).to_string());
+        }
+    }
     if rng.chance(1, 6) {
         // names that differ only by non-ASCII case
         let k = rng.below(4) as usize * 3;
